@@ -16,7 +16,13 @@ def run_fmt(ctx, sections, procs, extra_args=None):
         cmd = [harness_bin("fmt"), "--seed", str(ctx.seed * 1000 + i), "--tier", ctx.tier, "--out", d] + sections + (extra_args or [])
         r = subprocess.run(cmd, stdout=subprocess.PIPE, stderr=subprocess.PIPE, timeout=3000)
         if r.returncode != 0:
-            return {"dir": d, "crash": "exit %d: %s" % (r.returncode, r.stderr.decode(errors="replace")[-800:])}
+            msg = "exit %d: %s" % (r.returncode, r.stderr.decode(errors="replace")[-800:])
+            img = os.path.join(d, "hang_image.feox")
+            if os.path.exists(img):
+                kept = os.path.join(VERIF, "replay", "%s_hang_seed%d.feox" % (ctx.prop, ctx.seed * 1000 + i))
+                shutil.copyfile(img, kept)
+                msg += "\n# the image the open did not return on: %s" % kept
+            return {"dir": d, "crash": msg}
         rc, err = run_driver(os.path.join(d, "fmt.ops"), os.path.join(d, "fmt.model"))
         res = {"dir": d, "ops": read_lines(os.path.join(d, "fmt.ops")), "impl": read_lines(os.path.join(d, "fmt.impl")),
                "model": read_lines(os.path.join(d, "fmt.model")), "meta": json.load(open(os.path.join(d, "fmt.meta.json")))}
